@@ -77,6 +77,8 @@ def walk_zone(args) -> list:
             evs.append(e)
             if not iv.has_end:
                 break
+            if iv.end <= cur:
+                break  # the walk cannot progress (the interval answered does not contain the instant asked for)
             cur = iv.end
             if seg_stop is not None and cur >= seg_stop:
                 break
